@@ -202,7 +202,7 @@ Qed.
 
 Theorem m_edges_exact : forall spec L R m s G s',
   gg_m_edges spec L R m s = GGOk (G, s') -> spec = true \/ m <= L * R / 3 ->
-  gg_nedges G = m /\ io_kind G = KBipartite /\ io_n G = L /\ io_r G = R /\ 0 <= m <= L * R.
+  gg_nedges G = m /\ io_kind G = GioBipartite /\ io_n G = L /\ io_r G = R /\ 0 <= m <= L * R.
 Proof.
   intros spec L R m s G s' H Hb. unfold gg_m_edges in H.
   destruct ((L <? 1) || (R <? 1) || (m <? 0) || (L * R <? m)) eqn:Eg; [discriminate|].
@@ -269,10 +269,10 @@ Proof.
 Qed.
 
 (* all edges (u, v), v in vs, added to a bipartite graph in which u has no neighbour *)
-Lemma add_left_star G u vs G' : io_kind G = KBipartite -> NoDup vs -> ldeg G u = 0%nat ->
+Lemma add_left_star G u vs G' : io_kind G = GioBipartite -> NoDup vs -> ldeg G u = 0%nat ->
   gio_add_edges G (map (fun v => (u, v)) vs) = GOk G' ->
   ldeg G' u = length vs /\ (forall u', u' <> u -> ldeg G' u' = ldeg G u') /\
-  io_kind G' = KBipartite /\ io_n G' = io_n G /\ io_r G' = io_r G.
+  io_kind G' = GioBipartite /\ io_n G' = io_n G /\ io_r G' = io_r G.
 Proof.
   intros Hk Hnd Hd H. apply add_edges_inv in H as [_ ->]. rewrite Hk. cbn [edge_norm]. rewrite map_id.
   assert (Hnd' : NoDup (map (fun v => (u, v)) vs)).
@@ -289,11 +289,11 @@ Proof.
 Qed.
 
 (* ---------- bipartite_random_left_regular ---------- *)
-Lemma lr_loop_deg : forall us r d G s G' s', NoDup us -> io_kind G = KBipartite -> 0 <= d ->
+Lemma lr_loop_deg : forall us r d G s G' s', NoDup us -> io_kind G = GioBipartite -> 0 <= d ->
   (forall u, In u us -> ldeg G u = 0%nat) ->
   gg_lr_loop us r d G s = GGOk (G', s') ->
   (forall u, In u us -> ldeg G' u = Z.to_nat d) /\ (forall u, ~ In u us -> ldeg G' u = ldeg G u) /\
-  io_kind G' = KBipartite /\ io_n G' = io_n G /\ io_r G' = io_r G.
+  io_kind G' = GioBipartite /\ io_n G' = io_n G /\ io_r G' = io_r G.
 Proof.
   induction us as [|u us IH]; intros r d G s G' s' Hnd Hk Hd H0 H; cbn [gg_lr_loop] in H.
   - inversion H; subst. repeat split; try assumption. intros u [].
@@ -311,7 +311,7 @@ Proof.
 Qed.
 
 Theorem left_regular_degree : forall l r d s G s', gg_left_regular l r d s = GGOk (G, s') ->
-  io_kind G = KBipartite /\ io_n G = l /\ io_r G = r /\
+  io_kind G = GioBipartite /\ io_n G = l /\ io_r G = r /\
   forall u, 1 <= u <= l -> Z.of_nat (length (gio_succs G u)) = Z.min r d.
 Proof.
   intros l r d s G s' H. unfold gg_left_regular in H.
@@ -324,8 +324,8 @@ Qed.
 
 (* ---------- fixed graphs: edges added to the empty directed graph ---------- *)
 Lemma build_directed n es : 0 <= n -> NoDup es -> (forall s t, In (s, t) es -> 1 <= s /\ s < t /\ t <= n) ->
-  exists G, gg_bind (gg_lift (gio_new KDirected [] n 0)) (fun G => gg_lift (gio_add_edges G es)) = GGOk G /\
-            io_kind G = KDirected /\ io_n G = n /\ io_r G = 0 /\ gg_nedges G = gg_len es /\ gio_is_dag G = true /\
+  exists G, gg_bind (gg_lift (gio_new GioDirected [] n 0)) (fun G => gg_lift (gio_add_edges G es)) = GGOk G /\
+            io_kind G = GioDirected /\ io_n G = n /\ io_r G = 0 /\ gg_nedges G = gg_len es /\ gio_is_dag G = true /\
             (forall e, In e (io_edges G) <-> In e es).
 Proof.
   intros Hn Hnd Hb. rewrite new_ok by lia. cbn [gg_lift gg_bind].
@@ -341,7 +341,7 @@ Qed.
 
 (* dag_path *)
 Theorem dag_path_shape : forall len, 0 <= len -> exists G, gg_dag_path len = GGOk G /\
-  io_kind G = KDirected /\ io_n G = len + 1 /\ gg_nedges G = len /\ gio_is_dag G = true /\
+  io_kind G = GioDirected /\ io_n G = len + 1 /\ gg_nedges G = len /\ gio_is_dag G = true /\
   (forall u v, In (u, v) (io_edges G) <-> 1 <= u <= len /\ v = u + 1).
 Proof.
   intros len Hl. unfold gg_dag_path. replace (len <? 0) with false by lia.
@@ -376,7 +376,7 @@ Lemma tree_edges_length : forall cnt src dest, length (gg_tree_edges cnt src des
 Proof. induction cnt as [|c IH]; intros; cbn [gg_tree_edges length]; [reflexivity|]. rewrite IH. lia. Qed.
 
 Theorem dag_tree_shape : forall h, 0 <= h -> exists G, gg_dag_tree h = GGOk G /\
-  io_kind G = KDirected /\ io_n G = 2 ^ (h + 1) - 1 /\ gg_nedges G = 2 ^ (h + 1) - 2 /\ gio_is_dag G = true.
+  io_kind G = GioDirected /\ io_n G = 2 ^ (h + 1) - 1 /\ gg_nedges G = 2 ^ (h + 1) - 2 /\ gio_is_dag G = true.
 Proof.
   intros h Hh. unfold gg_dag_tree. replace (h <? 0) with false by lia.
   assert (Hp : 1 <= 2 ^ h) by (pose proof (Z.pow_pos_nonneg 2 h); lia).
@@ -436,7 +436,7 @@ Proof.
 Qed.
 
 Theorem dag_pyramid_shape : forall h, 0 <= h -> exists G, gg_dag_pyramid h = GGOk G /\
-  io_kind G = KDirected /\ io_n G = (h + 1) * (h + 2) / 2 /\ gg_nedges G = h * (h + 1) /\ gio_is_dag G = true.
+  io_kind G = GioDirected /\ io_n G = (h + 1) * (h + 2) / 2 /\ gg_nedges G = h * (h + 1) /\ gio_is_dag G = true.
 Proof.
   intros h Hh. unfold gg_dag_pyramid. replace (h <? 0) with false by lia.
   pose proof (tri_closed (Z.to_nat h)) as Ht. rewrite Z2Nat.id in Ht by lia.
@@ -456,11 +456,11 @@ Proof. intros h Hh. unfold gg_dag_path, gg_dag_tree, gg_dag_pyramid. replace (h 
 
 Lemma m_edges_spec_exact : forall L R m s G s',
   gg_m_edges_spec L R m s = GGOk (G, s') ->
-  gg_nedges G = m /\ io_kind G = KBipartite /\ io_n G = L /\ io_r G = R /\ 0 <= m <= L * R.
+  gg_nedges G = m /\ io_kind G = GioBipartite /\ io_n G = L /\ io_r G = R /\ 0 <= m <= L * R.
 Proof. intros L R m s G s' H. exact (m_edges_exact true L R m s G s' H (or_introl eq_refl)). Qed.
 Lemma m_edges_sparse_exact : forall L R m s G s',
   gg_m_edges_as_is L R m s = GGOk (G, s') -> m <= L * R / 3 ->
-  gg_nedges G = m /\ io_kind G = KBipartite /\ io_n G = L /\ io_r G = R /\ 0 <= m <= L * R.
+  gg_nedges G = m /\ io_kind G = GioBipartite /\ io_n G = L /\ io_r G = R /\ 0 <= m <= L * R.
 Proof. intros L R m s G s' H Hm. exact (m_edges_exact false L R m s G s' H (or_intror Hm)). Qed.
 
 (* ---------- bipartite_shift ---------- *)
@@ -473,7 +473,7 @@ Proof.
 Qed.
 
 Theorem shift_named : forall b N M pat G p', gg_shift b N M pat = GGOk (G, p') ->
-  io_kind G = KBipartite /\ io_n G = N /\ io_r G = M /\ 1 <= N /\ 1 <= M /\
+  io_kind G = GioBipartite /\ io_n G = N /\ io_r G = M /\ 1 <= N /\ 1 <= M /\
   (forall u v, gio_has_edge G u v = true <-> 1 <= u <= N /\ exists o, In o pat /\ v = 1 + (u - 1 + o) mod M) /\
   p' = (if b then gio_sort Z.ltb pat else pat).
 Proof.
@@ -629,12 +629,12 @@ Lemma pairs_range1_lt n u v : In (u, v) (pairs (gt_range1 n)) -> 1 <= u /\ u < v
 Proof. unfold gt_range1. intros H. apply pairs_seq_lt in H. lia. Qed.
 
 (* ---------- plantclique / plantbiclique ---------- *)
-Theorem plantclique_clique : forall G k s G' s', io_kind G = KSimple -> gg_plantclique G k s = GGOk (G', s') ->
+Theorem plantclique_clique : forall G k s G' s', io_kind G = GioSimple -> gg_plantclique G k s = GGOk (G', s') ->
   exists c, length c = Z.to_nat k /\ NoDup c /\ 0 <= k <= io_n G /\ (forall v, In v c -> 1 <= v <= io_n G) /\
     (forall v w, In v c -> In w c -> v <> w -> gio_has_edge G' v w = true) /\
     (forall e, In e (io_edges G) -> In e (io_edges G')) /\
     (forall e, In e (io_edges G') -> In e (io_edges G) \/ (In (fst e) c /\ In (snd e) c)) /\
-    io_kind G' = KSimple /\ io_n G' = io_n G.
+    io_kind G' = GioSimple /\ io_n G' = io_n G.
 Proof.
   intros G k s G' s' Hk H. unfold gg_plantclique in H. destruct (io_n G <? k) eqn:E; [discriminate|].
   bind_inv H c Hc. destruct c as [c s1]. cbn [fst snd] in H. apply sample_range1_spec in Hc as (Hkk & Hl & Hr & Hnd).
@@ -653,13 +653,13 @@ Proof.
     destruct (Z.min_spec a b) as [[_ ->]|[_ ->]], (Z.max_spec a b) as [[_ ->]|[_ ->]]; tauto.
 Qed.
 
-Theorem plantbiclique_biclique : forall G a b s G' s', io_kind G = KBipartite -> gg_plantbiclique G a b s = GGOk (G', s') ->
+Theorem plantbiclique_biclique : forall G a b s G' s', io_kind G = GioBipartite -> gg_plantbiclique G a b s = GGOk (G', s') ->
   exists lf rt, length lf = Z.to_nat a /\ length rt = Z.to_nat b /\ NoDup lf /\ NoDup rt /\
     (forall u, In u lf -> 1 <= u <= io_n G) /\ (forall v, In v rt -> 1 <= v <= io_r G) /\
     (forall u v, In u lf -> In v rt -> gio_has_edge G' u v = true) /\
     (forall e, In e (io_edges G) -> In e (io_edges G')) /\
     (forall e, In e (io_edges G') -> In e (io_edges G) \/ (In (fst e) lf /\ In (snd e) rt)) /\
-    io_kind G' = KBipartite /\ io_n G' = io_n G /\ io_r G' = io_r G.
+    io_kind G' = GioBipartite /\ io_n G' = io_n G /\ io_r G' = io_r G.
 Proof.
   intros G a b s G' s' Hk H. unfold gg_plantbiclique in H. destruct ((io_n G <? a) || (io_r G <? b)) eqn:E; [discriminate|].
   bind_inv H lf Hlf. destruct lf as [lf s1]. cbn [fst snd] in H. apply sample_range1_spec in Hlf as (_ & Hl1 & Hr1 & Hnd1).
@@ -712,13 +712,13 @@ Qed.
 Lemma candidates_NoDup G : NoDup (gg_candidates G).
 Proof. unfold gg_candidates. destruct (io_kind G); try apply pairs_NoDup, range1_NoDup. apply all_pairs_NoDup. Qed.
 (* on the candidate pairs add_edge stores the pair itself *)
-Lemma candidates_norm G e : io_kind G <> KDirected -> In e (gg_candidates G) -> edge_norm (io_kind G) e = e.
+Lemma candidates_norm G e : io_kind G <> GioDirected -> In e (gg_candidates G) -> edge_norm (io_kind G) e = e.
 Proof.
   unfold gg_candidates, edge_norm. destruct (io_kind G); intros Hk Hin; try reflexivity.
   destruct e as [u v]. apply pairs_range1_lt in Hin. cbn [fst snd]. f_equal; lia.
 Qed.
 
-Theorem add_missing_exact : forall G m s G' s', io_kind G <> KDirected -> gg_add_missing G m s = GGOk (G', s') ->
+Theorem add_missing_exact : forall G m s G' s', io_kind G <> GioDirected -> gg_add_missing G m s = GGOk (G', s') ->
   gg_nedges G' = gg_nedges G + m /\ 0 <= m /\ same_frame G G'.
 Proof.
   intros G m s G' s' Hk H. unfold gg_add_missing in H. destruct (m <? 0) eqn:Em; [discriminate|].
@@ -730,7 +730,7 @@ Proof.
     apply sample_list_spec in Hes as (_ & Hl & Hin & Hnd); [|apply NoDup_filter, candidates_NoDup].
     unfold gg_add_edges in H. bind_inv H G2 H2. apply gg_lift_ok in H2. inversion H; subst.
     pose proof (add_edges_keeps _ _ _ H2) as Hf2. apply add_edges_inv in H2 as [_ HG].
-    assert (Hk1 : io_kind G1 <> KDirected) by (destruct Hf as (-> & _); exact Hk).
+    assert (Hk1 : io_kind G1 <> GioDirected) by (destruct Hf as (-> & _); exact Hk).
     assert (Hmap : map (edge_norm (io_kind G1)) es = es).
     { rewrite <- (map_id es) at 2. apply map_ext_in. intros e He. apply Hin in He. apply filter_In in He as [He _].
       now apply candidates_norm. }
@@ -766,10 +766,10 @@ Qed.
 Lemma wf_stored G e : gio_wf G -> In e (io_edges G) -> edge_stored_ok G e.
 Proof. intros (_ & _ & _ & _ & Hf) Hin. rewrite Forall_forall in Hf. auto. Qed.
 
-Lemma split_step G u v x G1 G2 : gio_wf G -> io_kind G = KSimple -> In (u, v) (io_edges G) ->
+Lemma split_step G u v x G1 G2 : gio_wf G -> io_kind G = GioSimple -> In (u, v) (io_edges G) ->
   (forall e, In e (io_edges G) -> snd e < x) ->
   gio_add_edge (gg_remove_edge G u v) u x = GOk G1 -> gio_add_edge G1 x v = GOk G2 ->
-  gio_wf G2 /\ io_kind G2 = KSimple /\ io_n G2 = io_n G /\ gg_nedges G2 = gg_nedges G + 1 /\
+  gio_wf G2 /\ io_kind G2 = GioSimple /\ io_n G2 = io_n G /\ gg_nedges G2 = gg_nedges G + 1 /\
   (forall e, In e (io_edges G2) -> snd e < x + 1) /\
   (forall e, In e (io_edges G) -> e <> (u, v) -> In e (io_edges G2)).
 Proof.
@@ -808,10 +808,10 @@ Proof.
     destruct (gio_pair_eqb e (u, v)) eqn:E; [|reflexivity]. apply pair_eqb_spec in E. contradiction.
 Qed.
 
-Lemma split_loop_spec : forall es G x G', gio_wf G -> io_kind G = KSimple -> NoDup es ->
+Lemma split_loop_spec : forall es G x G', gio_wf G -> io_kind G = GioSimple -> NoDup es ->
   (forall e, In e es -> In e (io_edges G)) -> (forall e, In e (io_edges G) -> snd e < x) ->
   gg_split_loop G x es = GGOk G' ->
-  gio_wf G' /\ io_kind G' = KSimple /\ io_n G' = io_n G /\ gg_nedges G' = gg_nedges G + gg_len es.
+  gio_wf G' /\ io_kind G' = GioSimple /\ io_n G' = io_n G /\ gg_nedges G' = gg_nedges G + gg_len es.
 Proof.
   induction es as [|[u v] t IH]; intros G x G' Hw Hk Hnd Hin Hx H; cbn [gg_split_loop] in H.
   - inversion H; subst. split; [exact Hw|]. split; [exact Hk|]. split; [reflexivity|]. unfold gg_len. cbn [length]. lia.
@@ -825,7 +825,7 @@ Proof.
 Qed.
 
 Theorem split_exact : forall G k s G' s', gio_wf G -> gg_split_edges G k s = GGOk (G', s') ->
-  io_kind G = KSimple /\ io_kind G' = KSimple /\ 0 <= k /\
+  io_kind G = GioSimple /\ io_kind G' = GioSimple /\ 0 <= k /\
   io_n G' = io_n G + k /\ gg_nedges G' = gg_nedges G + k /\ gio_wf G'.
 Proof.
   intros G k s G' s' Hw H. unfold gg_split_edges in H. destruct (io_kind G) eqn:Hk; try discriminate.
@@ -867,7 +867,7 @@ Proof.
 Qed.
 
 Theorem complete_bipartite_shape : forall L R, 0 <= L -> 0 <= R -> exists G, gg_complete_bipartite L R = GGOk G /\
-  io_kind G = KBipartite /\ io_n G = L /\ io_r G = R /\ gg_nedges G = L * R /\
+  io_kind G = GioBipartite /\ io_n G = L /\ io_r G = R /\ gg_nedges G = L * R /\
   (forall u v, gio_has_edge G u v = true <-> 1 <= u <= L /\ 1 <= v <= R).
 Proof.
   intros L R HL HR. unfold gg_complete_bipartite. rewrite new_ok by lia. cbn [gg_lift gg_bind].
@@ -882,11 +882,11 @@ Proof.
 Qed.
 
 Theorem complete_simple_shape : forall n, 0 <= n -> exists G, gg_complete_simple n = GGOk G /\
-  io_kind G = KSimple /\ io_n G = n /\ 2 * gg_nedges G = n * (n - 1) /\
+  io_kind G = GioSimple /\ io_n G = n /\ 2 * gg_nedges G = n * (n - 1) /\
   (forall u v, gio_has_edge G u v = true <-> 1 <= u <= n /\ 1 <= v <= n /\ u <> v).
 Proof.
   intros n Hn. unfold gg_complete_simple. rewrite new_ok by lia. cbn [gg_lift gg_bind].
-  assert (Hnorm : map (edge_norm KSimple) (pairs (gt_range1 n)) = pairs (gt_range1 n)).
+  assert (Hnorm : map (edge_norm GioSimple) (pairs (gt_range1 n)) = pairs (gt_range1 n)).
   { rewrite <- (map_id (pairs (gt_range1 n))) at 2. apply map_ext_in. intros [u v] Hin. apply pairs_range1_lt in Hin.
     unfold edge_norm. cbn [fst snd]. f_equal; lia. }
   rewrite add_edges_ok.
@@ -904,5 +904,5 @@ Proof.
 Qed.
 
 Lemma empty_shapes : forall L R n, 0 <= L -> 0 <= R -> 0 <= n ->
-  gg_empty_bipartite L R = GGOk (mkIOG KBipartite [] L R []) /\ gg_empty_simple n = GGOk (mkIOG KSimple [] n 0 []).
+  gg_empty_bipartite L R = GGOk (mkIOG GioBipartite [] L R []) /\ gg_empty_simple n = GGOk (mkIOG GioSimple [] n 0 []).
 Proof. intros. unfold gg_empty_bipartite, gg_empty_simple. rewrite !new_ok by lia. split; reflexivity. Qed.
